@@ -458,16 +458,17 @@ class MgmComputation(VariableComputation):
             asgt = filter_assignment_dict(self._neighbors_values, c.dimensions)
             reduced_cs.append(c.slice(asgt))
             concerned_vars.update(c.dimensions)
+        # The cost of our own variable depends on the candidate value: it must be
+        # part of the optimized function, otherwise the gain ignores it.
         var_val, rel_val = find_arg_optimal(
             self.variable,
-            lambda x: functools.reduce(operator.add, [f(x) for f in reduced_cs]),
+            lambda x: functools.reduce(operator.add, [f(x) for f in reduced_cs])
+            + self.variable.cost_for_val(x),
             self._mode,
         )
-        # Add the cost for each variable value if any
+        # Add the cost for the value of each neighbor variable, if any
         for var in concerned_vars:
-            if var.name == self.name:
-                rel_val += var.cost_for_val(self.current_value)
-            else:
+            if var.name != self.name:
                 rel_val += var.cost_for_val(self._neighbors_values[var.name])
 
         return var_val, rel_val
